@@ -4,6 +4,7 @@ use crate::report::Tier;
 pub mod c01;
 pub mod c02;
 pub mod c03;
+pub mod c04;
 pub mod builder_oracles;
 pub mod c05;
 pub mod c06;
@@ -27,6 +28,7 @@ pub fn run(prop: &str, tier: Tier, seed: u64) -> Option<i32> {
         "C01" => c01::run(tier, seed),
         "C02" => c02::run(tier, seed),
         "C03" => c03::run(tier, seed),
+        "C04" => c04::run(tier, seed),
         "C05" => c05::run(tier, seed),
         "C06" => c06::run(tier, seed),
         "C08" => c08::run(tier, seed),
@@ -50,6 +52,7 @@ pub fn scenario(prop: &str, name: &str, tier: Tier) -> Option<BoxedScenario> {
         "C01" => c01::scenario(name, tier),
         "C02" => c02::scenario(name, tier),
         "C03" => c03::scenario(name, tier),
+        "C04" => c04::scenario(name, tier),
         "C05" => c05::scenario(name, tier),
         "C06" => c06::scenario(name, tier),
         "C08" => c08::scenario(name, tier),
